@@ -53,6 +53,9 @@ pub use crate::walk::{
     WalkParallel, WalkState,
 };
 
+#[cfg(ripgrep_verif)]
+pub use crate::walk::verif as walk_verif;
+
 mod default_types;
 mod dir;
 pub mod gitignore;
